@@ -13,7 +13,8 @@ RULE = ("(a) well-typed first- and higher-order expressions over generated langu
         "sibling passed operations, nested internal nodes fed by the enclosing one); (b) languages with composite operators (compose, flip, const, identity, "
         "partial application, definitions nested in definitions): expressions are expanded with primitive() and the graph of the expansion (abstractions as "
         "arguments included) is compared with the independent data-flow graph; non-trivial = at least two operator applications; distinct by (language, expression)")
-ASSUMPTIONS = ["spines headed by a source of function type (`- x`) are outside the statement and are not generated here",
+ASSUMPTIONS = ["spines headed by a source of function type (`- x`) or by a parameter of an abstraction (`λf. f s`) are outside the statement and are not generated here "
+               "(the model shows what happens there: the node returned for such a spine gets no edge - C08_source_head_splits_spine, C08a_param_head_oddity)",
 
                "part (b): with the minimal switches the graph of the expansion is also compared with the model (Tfv/Model/GraphAbs.lean, abstractions in "
                "argument position); with the default switches it is implementation vs independent specification only"]
